@@ -5,6 +5,7 @@
    probability = feasible fraction >= 1/4 under the uniform generator), and move_climb always keeps the
    move_random escape (a sample far outside the box). *)
 Require Import Base StopRun Converter ConverterFacts CoreOpt Tracker Algos Driver DriverFacts CoreFacts AlgoFacts AlgoLift.
+Require Import PyPrims PyPrimsQ GridGen GridTie.
 
 Theorem C08_move_random_first_feasible : forall sp cons (rejected : list pos) (p : pos) (rest : tape) c,
   Forall (fun q => in_box sp q /\ feasible sp cons q = Ok false) rejected ->
@@ -42,3 +43,15 @@ Example C08_nonvacuous :
   let cons := fun v : values => match v with [a; b] => Z.even (a + b) | _ => false end in
   move_random sp cons 10 (flat_map (map DZ) [[1; 0]; [2; 1]] ++ map DZ [3; 1] ++ [DZ 0]) 0 = Ok ([3; 1], [DZ 0], 3).
 Proof. vm_compute. reflexivity. Qed.
+
+(* ---------- finding F-D5, machine-checked against the code GENERATED from diagonal_grid_search.py ----------
+   C08 as stated is FALSE for the diagonal grid search: on a 1x4 space with step 1, after the first pass
+   (nth_trial = 4), with a constraint that excludes only position [1] (3/4 of the space feasible), the translated
+   `while True` of iterate never returns -- for every amount of fuel, whatever the pointer and whatever move_random does *)
+Theorem C08_source_diag_livelock_refuted : forall fuel p mr,
+  g_diag_iterate 1 d5_cons (fun q => q) mr fuel (d5_state p) = Err OutOfFuel.
+Proof. exact source_diag_livelock. Qed.
+Print Assumptions C08_source_diag_livelock_refuted.
+
+Example C08_source_diag_livelock_feasible_fraction : map d5_cons [[0]; [1]; [2]; [3]] = [true; false; true; true].
+Proof. exact d5_feasible_fraction. Qed.
